@@ -1160,7 +1160,7 @@ fn c16_eval(n: usize, calls: &[Call], batch: usize, st: &mut Stats) {
 }
 
 pub fn run_c16(tier: &str, deadline: Instant, total: &mut Stats, log: &mut Vec<Value>) {
-    let plans: Vec<(usize, usize)> = if tier == "thorough" { vec![(2, 6), (3, 5), (4, 4)] } else { vec![(2, 5), (3, 4), (4, 3)] };
+    let plans: Vec<(usize, usize)> = if tier == "thorough" { vec![(2, 8), (3, 6), (4, 5)] } else { vec![(2, 5), (3, 4), (4, 3)] };
     for (n, maxlen) in plans {
         let alphabet: Vec<Call> = (0..n).flat_map(|a| (0..n).flat_map(move |b| [false, true].into_iter().map(move |c| Call { from: a, to: b, contains: c }))).collect();
         let k = alphabet.len();
